@@ -225,6 +225,9 @@ def replay(path: Path) -> int:
         c = fi.get("case")
         if not c:
             continue
+        if "script" not in c:
+            from vp.core import rerun_by_seed
+            return rerun_by_seed("C19", r)
         s = c["script"]
         _, _, trace, _ = run_real(*s)
         errs = oracle(s[0], s[1], s[2], trace)
